@@ -25,6 +25,7 @@ package fsm
 // /verif/spec/externals.contracts); it is checked at its call site here on every path.
 //@ func (*StateMachine).HandleDoubleSigners
 //@   requires[params] wfValParams(params)
+//@   ensures[conserve] result == nil ==> drift(s) == old(drift(s)) && acctBal() == old(acctBal()) && poolBal() == old(poolBal())
 
 // ---- C04: token supply conservation ------------------------------------------------------------------
 // Abstract state (ghost): what the store holds, seen through the typed accessors.
@@ -603,12 +604,18 @@ package fsm
 // stored validator parameters have passed ValidatorParams.Check (percentages at most 100): ASSUMED of the
 // parameter store; SlashValidator relies on it (a percent above 2^64-100 would wrap the cap comparison)
 //@ spec func wfValParams(p *ValidatorParams) bool = p != nil && p.NonSignSlashPercentage <= 100 && p.DoubleSignSlashPercentage <= 100 && p.MaxSlashPerCommittee <= 100
+// every validator on a slash list is loaded from state and slashed through SlashValidator (which burns from stake
+// and total alike); unknown addresses are skipped: slashing lists burn and move nothing else
 //@ func (*StateMachine).SlashValidators
 //@   requires[percent] percent <= 100 && p != nil && p.MaxSlashPerCommittee <= 100
+//@   loop 1 invariant[conserve] drift(s) == old(drift(s)) && acctBal() == old(acctBal()) && poolBal() == old(poolBal()) && p.MaxSlashPerCommittee <= 100
+//@   ensures[conserve] result == nil ==> drift(s) == old(drift(s)) && acctBal() == old(acctBal()) && poolBal() == old(poolBal())
 //@ func (*StateMachine).SlashNonSigners
 //@   requires[params] wfValParams(params)
+//@   ensures[conserve] result == nil ==> drift(s) == old(drift(s)) && acctBal() == old(acctBal()) && poolBal() == old(poolBal())
 //@ func (*StateMachine).SlashDoubleSigners
 //@   requires[params] wfValParams(params)
+//@   ensures[conserve] result == nil ==> drift(s) == old(drift(s)) && acctBal() == old(acctBal()) && poolBal() == old(poolBal())
 //@ func (*StateMachine).SlashAndResetNonSigners
 //@   modifies *
 //@   requires[params] wfValParams(params)
@@ -697,3 +704,4 @@ package fsm
 //@ func (*StateMachine).DeleteFinishedUnstaking$1
 //@   callsite AccountAdd requires[tooutput] validator.Output != nil ==> addrOf(callee.address) == bytes(validator.Output) && callee.amountToAdd == validator.StakedAmount
 //@   ensures[conserve] isnil(result) ==> drift(s) == old(drift(s)) && supTotal(s) == old(supTotal(s)) && poolBal() == old(poolBal())
+
